@@ -14,9 +14,9 @@ import (
 
 func leafToken(text string) string {
 	if text != "" && (text[0] == '"' || text[0] == '-' || (text[0] >= '0' && text[0] <= '9')) {
-		return "TLit " + vh.BytesTerm(text)
+		return "TLit " + bt(text)
 	}
-	return "TIdent " + vh.BytesTerm(text)
+	return "TIdent " + bt(text)
 }
 
 // tokenise splits the value text of an option into the tokens of model/ProtoPrint.v.
@@ -75,7 +75,7 @@ func rawTerm(f tool.OptionField) string {
 	case tool.OptionMessage:
 		parts := make([]string, len(f.Children))
 		for i, c := range f.Children {
-			parts[i] = "(" + vh.BytesTerm(c.Key) + ", " + rawTerm(c) + ")"
+			parts[i] = "(" + bt(c.Key) + ", " + rawTerm(c) + ")"
 		}
 		return "(RMsg [" + strings.Join(parts, ";") + "])"
 	case tool.OptionArray:
